@@ -422,7 +422,26 @@ func init() {
 			return res
 		},
 		"reflect.DeepEqual": func(e *Exec, st *State, f *ssa.Function, args []Value, pos token.Pos) Value {
-			// unconstrained boolean (sound over-approximation; the verdict never relies on it)
+			// DeepEqual(x, T{}) with x read from memory is the (uninterpreted)
+			// zero-value test of x; anything else is an unconstrained boolean
+			// (sound over-approximation)
+			structOf := func(v Value) *StructV {
+				iv, ok := v.(*IfaceV)
+				if !ok || len(iv.Alts) != 1 {
+					return nil
+				}
+				sv, _ := iv.Alts[0].Val.(*StructV)
+				return sv
+			}
+			a, b := structOf(args[0]), structOf(args[1])
+			if a != nil && b != nil && types.Identical(a.T, b.T) {
+				if a.Zero && !b.Zero {
+					a, b = b, a
+				}
+				if b.Zero && a.Origin != nil {
+					return Scalar{T: e.C.App("isZero_"+smt.Sanitize(a.Origin.Sort.String()), smt.Bool, a.Origin), Typ: boolTyp}
+				}
+			}
 			return Scalar{T: e.C.Fresh("deepequal", smt.Bool), Typ: boolTyp}
 		},
 		"crypto/sha256.Sum256": func(e *Exec, st *State, f *ssa.Function, args []Value, pos token.Pos) Value {
